@@ -39,6 +39,29 @@ func main() {
 			c := genCase(rand.New(rand.NewSource(cs)), i, cs, pf)
 			emit(w, runCase(c))
 		}
+	case "prune", "desired", "neutral":
+		pf, ok := profiles[*profile]
+		if !ok {
+			fmt.Fprintln(os.Stderr, "unknown profile", *profile)
+			os.Exit(2)
+		}
+		rng := rand.New(rand.NewSource(*seed))
+		for i := 0; i < *n; i++ {
+			cs := rng.Int63()
+			if i < *start {
+				continue
+			}
+			sub := rand.New(rand.NewSource(cs))
+			c := genCase(sub, i, cs, pf)
+			switch cmd {
+			case "prune":
+				emit(w, runPrunePair(c))
+			case "desired":
+				emit(w, runDesiredPair(c, sub))
+			case "neutral":
+				emit(w, runNeutralPairs(c, sub))
+			}
+		}
 	case "edit":
 		rng := rand.New(rand.NewSource(*seed))
 		for i := 0; i < *n; i++ {
@@ -96,4 +119,6 @@ func emit(w *bufio.Writer, lines []string) {
 
 var profiles = map[string]Profile{
 	"default": defaultProfile,
+	"plain":   plainProfile,
+	"memo":    memoProfile,
 }
